@@ -132,7 +132,14 @@ class Ctx:
         self.violations.append({"kind": kind, "what": what, "replay": replay})
 
     def known(self, fid, what):
-        self.known_seen[fid] = what
+        """a recorded, still open finding reproduced; anything the committed known-findings file does
+        not list as open (unknown id, or an entry recorded as fixed) is a violation"""
+        if any(k.get("id") == fid for k in self.known_open):
+            self.known_seen[fid] = what
+        else:
+            self.violation("spec", f"{what} (reported as {fid}, which known_findings.json does not "
+                                   f"list as an open finding of {self.prop})",
+                           {"finding": fid, "what": what})
 
     def note(self, text):
         if text not in self.notes:
